@@ -28,19 +28,23 @@ CLAIMS = {
          "hence order independence. The floor (all graphs <=2 nodes + random) replays counterexamples.", '4 C08, A.4'),
  'C09': ('other', "Deductive: add_node, remove_node, add_attacker, remove_attacker, compromise/undo (+ lemma COMP-WF), prune, the lookups preserve wf_graph (W0..W5) and have exact effects; "
          "raising calls leave the observable state unchanged. Bounded: regenerate_graph, attach_attackers, deepcopy, save/load inside histories (all histories <=3 operations on graphs <=3 nodes).", '4 C09, A.5'),
- 'C10': ('exploration', "Bounded only so far: graphs <=4 nodes x {json, yml, dict} x {model, no model}, typed field comparison.", '4 C10'),
+ 'C10': ('other', "Deductive: AttackGraphNode.to_dict, Attacker.to_dict and AttackGraph._to_dict are verified against the dict encoding (typed fields, tags as a fresh list of str, id -> full-name maps, "
+         "one collision-free entry per node / attacker). Bounded: _from_dict and the file layer (json / yaml are external) by the floor: graphs <=4 nodes x {json, yml, dict} x {model, no model}.", '4 C10'),
  'C11': ('other', "Deductive: Attacker.compromise / undo_compromise and the node-side delegates (exact delta, idempotence), lemma COMP-WF, remove_attacker (no node stays compromised), add_attacker. "
          "Bounded: attach_attackers (contract in progress) by the floor: 2 attackers x 3 nodes, sequences <=5, 6342 attach scenarios.", '4 C11'),
  'C12': ('proof', "query.py and the node predicates it uses are verified function by function (loop invariants over the done-bag, frame = only fresh / caller-supplied lists change); "
          "'incremental = recomputed' is lemma INC discharged over the two contracts.", '4 C12, A.3'),
  'C13': ('proof', "prune_unviable_and_unnecessary_nodes and AttackGraph.remove_node are verified: exactly the prunable nodes are removed, labels are outside the frame, wf_graph (incl. attackers' "
          "references) is preserved. Floor: all labelled graphs <=3 nodes.", '4 C13'),
- 'C14': ('exploration', "Bounded only so far: graphs <=3 nodes with attackers; freshness of every container, closure, 28 mutations on either side.", '4 C14'),
+ 'C14': ('other', "Deductive: AttackGraphNode.__deepcopy__ (fresh node, fresh empty link lists, tags / extras / ttc / attributes fresh and separated from the original, asset shared, memo updated) "
+         "against the assumed contract DEEPCOPY for plain data. Bounded: Attacker / AttackGraph __deepcopy__ and independence under later mutations by the floor (graphs <=3 nodes, 28 mutations).", '4 C14'),
  'C15': ('other', "Deductive: is_subasset_of == reflexive-transitive closure (with termination), get_asset_by_name. Bounded: all language structures over <=3 types incl. ill-formed ones, "
          "over-approximation of attack-graph edges.", '4 C15'),
  'C16': ('other', "Deductive: the frame part — _get_attacks_for_asset_type writes nothing allocated before the call (language specification untouched) and its result is fresh. Bounded: same-process, "
          "fresh-process (hash seeds) and wrapper determinism by the floor.", '4 C16'),
- 'C17': ('exploration', "Bounded only so far: token-level mutants of valid sources that the grammar itself rejects must make compile() raise.", '4 C17'),
+ 'C17': ('other', "Deductive: MalCompiler.compile returns normally only if the file has no lexer error, no parser error, no unparsed tail and no malformed include, and restores its path state on every exit "
+         "- verified against an ASSUMED contract of the ANTLR runtime (errors are reported to the registered listeners; a raising listener propagates) and an assumed contract of the visitor for includes. "
+         "Bounded: token-level mutants of valid sources that the grammar itself rejects (root and included files) by the floor.", '4 C17'),
  'C18': ('exploration', "Bounded only: inverse translation of native models into the 0.0.39 layout and .sCAD archives.", '4 C18'),
  'C19': ('exploration', "Bounded only: recording stand-in for the py2neo driver.", '4 C19'),
 }
